@@ -1665,13 +1665,14 @@ impl MutableArchive {
             // Seek to header position
             self.file.seek(SeekFrom::Start(archive_offset))?;
 
-            // Write the header
-            self.file.write_all(b"MPQ\x1A")?; // Signature
-            self.file.write_all(&header.header_size.to_le_bytes())?;
-            self.file.write_all(&header.archive_size.to_le_bytes())?;
-            self.file
-                .write_all(&(header.format_version as u16).to_le_bytes())?;
-            self.file.write_all(&header.block_size.to_le_bytes())?;
+            // Assemble the header and write it with a single call, so that an interrupted
+            // flush leaves either the old or the new header, never a mix of both
+            let mut buf: Vec<u8> = Vec::with_capacity(header.header_size as usize);
+            buf.extend_from_slice(b"MPQ\x1A"); // Signature
+            buf.extend_from_slice(&header.header_size.to_le_bytes());
+            buf.extend_from_slice(&header.archive_size.to_le_bytes());
+            buf.extend_from_slice(&(header.format_version as u16).to_le_bytes());
+            buf.extend_from_slice(&header.block_size.to_le_bytes());
 
             // Use updated positions if available (for V3+), otherwise use original
             let hash_pos = self
@@ -1681,34 +1682,30 @@ impl MutableArchive {
                 .updated_block_table_pos
                 .unwrap_or(header.block_table_pos as u64) as u32;
 
-            self.file.write_all(&hash_pos.to_le_bytes())?;
-            self.file.write_all(&block_pos.to_le_bytes())?;
-            self.file.write_all(&header.hash_table_size.to_le_bytes())?;
-            self.file
-                .write_all(&header.block_table_size.to_le_bytes())?;
+            buf.extend_from_slice(&hash_pos.to_le_bytes());
+            buf.extend_from_slice(&block_pos.to_le_bytes());
+            buf.extend_from_slice(&header.hash_table_size.to_le_bytes());
+            buf.extend_from_slice(&header.block_table_size.to_le_bytes());
 
             // Write extended fields for v2+
             if header.format_version >= FormatVersion::V2 {
-                self.file
-                    .write_all(&header.hi_block_table_pos.unwrap_or(0).to_le_bytes())?;
-                self.file
-                    .write_all(&header.hash_table_pos_hi.unwrap_or(0).to_le_bytes())?;
-                self.file
-                    .write_all(&header.block_table_pos_hi.unwrap_or(0).to_le_bytes())?;
+                buf.extend_from_slice(&header.hi_block_table_pos.unwrap_or(0).to_le_bytes());
+                buf.extend_from_slice(&header.hash_table_pos_hi.unwrap_or(0).to_le_bytes());
+                buf.extend_from_slice(&header.block_table_pos_hi.unwrap_or(0).to_le_bytes());
             }
 
             // Write v3+ fields
             if header.format_version >= FormatVersion::V3 {
-                self.file
-                    .write_all(&header.archive_size_64.unwrap_or(0).to_le_bytes())?;
+                buf.extend_from_slice(&header.archive_size_64.unwrap_or(0).to_le_bytes());
 
                 // Use updated positions if available, otherwise use original
                 let het_pos = self.updated_het_pos.or(header.het_table_pos).unwrap_or(0);
                 let bet_pos = self.updated_bet_pos.or(header.bet_table_pos).unwrap_or(0);
 
-                self.file.write_all(&het_pos.to_le_bytes())?;
-                self.file.write_all(&bet_pos.to_le_bytes())?;
+                buf.extend_from_slice(&het_pos.to_le_bytes());
+                buf.extend_from_slice(&bet_pos.to_le_bytes());
             }
+            self.file.write_all(&buf)?;
         }
 
         Ok(())
